@@ -215,9 +215,9 @@ def _crash_runner(leg, prop, tier, seed, jobs, ROOT, BUILD, replay_case):
     rng = random.Random(seed * 7919 + 13)
     STRACE_SET = "lseek,writev,pwritev,pwrite64,fdatasync,fsync"
 
-    def run_child(cs, kill, mode="plain", strace_k=None, timer_v=None, timer_delay=0.0, use_tmpdir=False):
+    def run_child(cs, kill, mode="plain", strace_k=None, timer_v=None, timer_delay=0.0, use_tmpdir=False, change=0):
         d = tempfile.mkdtemp(prefix="arroy-verif-crash-", dir=scratch)
-        cmd = [binp, "crash-child", "C09", "--dir", d, "--seed", str(cs), "--versions", str(versions), "--kill", kill]
+        cmd = [binp, "crash-child", "C09", "--dir", d, "--seed", str(cs), "--versions", str(versions), "--kill", kill, "--change", str(change)]
         if use_tmpdir:
             os.makedirs(d + ".tmp", exist_ok=True)
             cmd += ["--tmpdir", d + ".tmp"]
@@ -270,8 +270,8 @@ def _crash_runner(leg, prop, tier, seed, jobs, ROOT, BUILD, replay_case):
                 done = True
         return acked, inflight, counts, done
 
-    def verify(cs, d, acked, inflight):
-        cmd = [binp, "crash-verify", "C09", "--dir", d, "--seed", str(cs), "--acked", str(acked) if acked >= 0 else "none"]
+    def verify(cs, d, acked, inflight, change=0):
+        cmd = [binp, "crash-verify", "C09", "--dir", d, "--seed", str(cs), "--acked", str(acked) if acked >= 0 else "none", "--change", str(change)]
         if os.path.isdir(d + ".tmp"):
             cmd += ["--tmpdir", d + ".tmp"]
         if inflight is not None:
@@ -288,21 +288,26 @@ def _crash_runner(leg, prop, tier, seed, jobs, ROOT, BUILD, replay_case):
         return "inconclusive", f"verifier produced no verdict (exit {r.returncode}): {r.stderr[-400:]}"
 
     # scenarios and their counting runs
-    n_scen = 2 if not thorough else 3
+    # every second scenario changes the metric at version 4 (prepare_changing_distance committed without a build)
+    n_scen = 2 if not thorough else 4
     scen = []
     for i in range(n_scen):
         cs = (seed * 1000003 + i * 7919 + 0xC09) & 0xFFFFFFFF
-        d, out, rc, err = run_child(cs, "none")
+        change = i % 2
+        d, out, rc, err = run_child(cs, "none", change=change)
         acked, inflight, counts, done = analyse(out)
         shutil.rmtree(d, ignore_errors=True)
         if not done or rc != 0:
             res.inconclusive.append(f"counting run of scenario {cs} did not complete (rc={rc}): {str(err)[-300:]}")
             return res
-        scen.append((cs, counts))
+        scen.append((cs, counts, change))
     # strace availability + number of matching syscalls
     strace_ok = shutil.which("strace") is not None
     specs = []   # (cs, label, kwargs)
-    for cs, counts in scen:
+    for cs, counts, change in scen:
+        n0 = len(specs)
+        if change:
+            specs.append((cs, "prepare:4:0", dict(kill="prepare:4:0")))
         for v in range(1, versions + 1):
             polls, steps, ops = counts[v]
             if polls == 0:
@@ -328,6 +333,8 @@ def _crash_runner(leg, prop, tier, seed, jobs, ROOT, BUILD, replay_case):
             for sc in STRACE_SET.split(","):
                 for k in range(1, 15 if thorough else 10):
                     specs.append((cs, f"strace:{sc}:{k}", dict(kill="none", mode="strace", strace_k=(sc, k))))
+        for i in range(n0, len(specs)):
+            specs[i] = (specs[i][0], specs[i][1] + ("+change" if change else ""), dict(specs[i][2], change=change))
     # every second kill point runs with a configured temp directory (Writer::set_tmpdir) that survives the crash
     specs = [(cs, label + ("+tmpdir" if i % 2 else ""), dict(kw, use_tmpdir=bool(i % 2))) for i, (cs, label, kw) in enumerate(specs)]
     if replay_case is not None:
@@ -344,7 +351,7 @@ def _crash_runner(leg, prop, tier, seed, jobs, ROOT, BUILD, replay_case):
                 return spec, "strace-failed", f"rc={rc} {str(err)[-200:]}", None
             if done:
                 inflight = None
-            verdict, msg = verify(cs, d, acked, inflight)
+            verdict, msg = verify(cs, d, acked, inflight, kw.get("change", 0))
             return spec, verdict, msg, (acked, inflight, done, rc)
         finally:
             shutil.rmtree(d, ignore_errors=True)
@@ -363,6 +370,8 @@ def _crash_runner(leg, prop, tier, seed, jobs, ROOT, BUILD, replay_case):
         c[f"kills_{mode}"] = c.get(f"kills_{mode}", 0) + 1
         if kw.get("use_tmpdir"):
             c["kills_with_configured_tmpdir"] = c.get("kills_with_configured_tmpdir", 0) + 1
+        if kw.get("change"):
+            c["kills_in_metric_change_scenarios"] = c.get("kills_in_metric_change_scenarios", 0) + 1
         if verdict == "strace-failed":
             strace_failed += 1
             continue
@@ -382,7 +391,7 @@ def _crash_runner(leg, prop, tier, seed, jobs, ROOT, BUILD, replay_case):
             m = re.search(r"v=(\d+) .*which=(\w+)", msg)
             if m:
                 c[f"visible_{m.group(2)}"] = c.get(f"visible_{m.group(2)}", 0) + 1
-                res.sigs.add(f"{mode}|v{m.group(1)}|{m.group(2)}|{'done' if done else 'killed'}")
+                res.sigs.add(f"{mode}|v{m.group(1)}|{m.group(2)}|{'done' if done else 'killed'}|{kw.get('change', 0)}")
             if len(res.samples) < 3 and not done:
                 res.samples.append({"scenario_seed": cs, "kill": label, "last_ack": acked, "commit_in_flight": inflight, "verifier": msg})
         else:
@@ -390,13 +399,13 @@ def _crash_runner(leg, prop, tier, seed, jobs, ROOT, BUILD, replay_case):
                               "msg": f"kill point {label} (last ACK {acked}, commit in flight {inflight}): {msg}"})
     if strace_failed:
         c["strace_unavailable_runs"] = strace_failed
-    res.rule = ("fault enumeration over crash points: a child process runs a deterministic history of 7 committed versions (two of them staging versions: items appended and committed without a build; 1 rayon thread) and is SIGKILLed "
+    res.rule = ("fault enumeration over crash points: a child process runs a deterministic history of 7 committed versions (two of them staging versions: items appended and committed without a build; in every second scenario version 4 is prepare_changing_distance to another metric committed without a build, and the later versions work under the new metric; 1 rayon thread) and is SIGKILLed "
                 "(a) at the k-th cancellation poll of a build (every k for two builds in the thorough tier, sampled otherwise), (b) at every progress step, "
                 "(c) before the k-th item operation, (d) right after a commit returned, (e) at a random instant between COMMITTING and ACK, "
                 "(f) by strace at the K-th invocation of each commit syscall (lseek, writev, pwritev, pwrite64, fdatasync, fsync; K=1..9, 14 thorough); a fresh process then reopens the directory and compares what is visible "
                 "with the model of the last acknowledged (or in-flight) version recomputed from the seed: sentinel, item store, C01 walker, exact queries, and one more update+build+commit; "
                 "non-trivial+distinct = distinct (kill mode, visible version, acked/in-flight, killed/completed) outcomes")
-    res.required = ["child_killed", "verified_ok", "killed_by_poll", "killed_by_step", "killed_by_op", "killed_by_timer", "killed_with_commit_in_flight"]
+    res.required = ["child_killed", "verified_ok", "kills_in_metric_change_scenarios", "killed_by_poll", "killed_by_step", "killed_by_op", "killed_by_timer", "killed_with_commit_in_flight"]
     c["wall_s_x100"] = int((time.time() - t0) * 100)
     return res
 
